@@ -256,9 +256,10 @@ structure CleanImports (cfg : Cfg) (fs : FS) (root : APath) : Prop where
   resolves : ∀ n, Reachable cfg fs root n → ∀ l ∈ loadsOf fs n.1, findFile cfg fs n.2 (filepathText l.lit) ≠ none
   acyclic : ∀ n n', Reachable cfg fs root n → ImportPath cfg fs n n' → n'.1 ≠ n.1
 
-/-- **H4**: the type references written in a file are at pairwise distinct positions (they are distinct tokens). The
-    parser model does not expose enough about token positions to derive this; it is a hypothesis on the parsed
-    contents. -/
+/-- **H4**: the type references written in a file are at pairwise distinct positions (they are distinct tokens). In
+    this file it is a hypothesis on the parsed contents; `Props/C03Pos.lean` (`parseText_refPositionsDistinct`) derives
+    it for every text the parser model accepts, and `Props/C16ProgramPos.lean` restates the whole-program theorems
+    without it (`front_eq_violationsOrdered'`, `front_eq_programDiags'`). -/
 def RefPositionsDistinct (cfg : Cfg) (f : ProgFile) : Prop :=
   ((walkContents { file := f.file, keys := cfg.keys, defaultDeriving := cfg.defaultDeriving } [] f.contents).refs.map
     (fun r => (r.file, r.pos))).Nodup
